@@ -1,4 +1,5 @@
 """C19 -- what is drawn is the object (DR1, DR2, DR3, U1)."""
+from ..rules import misc_rules as MI
 from ..rules import draw_rules as D
 from ..rules import sibling_rules as SI
 from ..rules import cache_rules as CA
@@ -28,6 +29,9 @@ ENTRIES = [
 
 
 def run(ctx):
+    ctx.do(MI.rule_enum1, ["geometry_tools/hyperbolic.py", "geometry_tools/drawtools.py"])
+    ctx.do(MI.rule_sgn1, ["geometry_tools/hyperbolic.py", "geometry_tools/utils/core.py"])
+    ctx.do(MI.rule_rng1, only={"circle_angles"})
     ctx.do(D.rule_dr1)
     ctx.do(D.rule_dr2)
     ctx.do(D.rule_dr3)
